@@ -70,3 +70,23 @@ Fixpoint insz (x : Z) (l : list Z) : list Z :=
 Definition sortz (l : list Z) : list Z := fold_right insz [] l.
 Definition o_selected (st : ostore) : list (list Z) := map (fun s => sortz (map snd s)) (o_slots st).
 Definition o_values (st : ostore) : list (list Z) := map (map fst) (o_slots st).
+
+(* monitors of the hypotheses of the characterisation theorems (Proofs/OrdTopL.v), evaluated on
+   every case of the correspondence run *)
+Fixpoint script_okb (m : nat) (prev : Z) (script : list (Z * nat)) : bool :=
+  match script with
+  | [] => true
+  | (x, k) :: r => (prev <=? x) && (k <? m)%nat && script_okb m x r
+  end.
+Definition pairs_okb (m : nat) (pairs : list (list (Z * nat))) : bool :=
+  forallb (fun sc => script_okb m 0 sc && (length sc <=? m)%nat) pairs.
+Fixpoint nodupz (l : list Z) : bool :=
+  match l with [] => true | x :: r => negb (existsb (Z.eqb x) r) && nodupz r end.
+Definition slot_vals (k : nat) (pairs : list (list (Z * nat))) : list Z :=
+  flat_map (fun sc => map fst (filter (fun p => (snd p =? k)%nat) sc)) pairs.
+Definition slots_distinctb (m : nat) (pairs : list (list (Z * nat))) : bool :=
+  forallb (fun k => nodupz (slot_vals k pairs)) (seq 0 m).
+(* no two pairs share a race value: under independent continuous races this fails with probability
+   about 2^-52 per pair of points; a generator that gives two pairs a common value fails it at once *)
+Definition pairs_disjointb (pairs : list (list (Z * nat))) : bool :=
+  nodupz (flat_map (map fst) pairs).
